@@ -19,8 +19,15 @@ def quiet(fn, *a, **k):
         return fn(*a, **k)
 
 
+_CUR = None     # the scenario the running oracle was called with (see `_wrap` at the end of the file)
+
+
 def mk(tr):
     s, ts, te = tr
+    own = _CUR.get('own0') if isinstance(_CUR, dict) else None
+    if own is not None and tr is _CUR['trains'][0] and all(own[0] <= x <= own[1] for x in s):
+        # unequal-edges variant: the first train is passed with its own, narrower edges
+        ts, te = own
     return SpikeTrain(np.array([float(v) for v in s], dtype=float), [float(ts), float(te)])
 
 
@@ -171,6 +178,32 @@ def coinc_matrix(s1, s2, ts, te, max_tau, m):
 
 # ------------------------------------------------------------------ per-property oracles
 
+def _arrs(p):
+    return [np.array(getattr(p, a), dtype=float).copy() for a in ('x', 'y', 'y1', 'y2', 'mp') if hasattr(p, a)]
+
+
+def recall_check(prop, sc, fname, **kw):
+    """the profile returned by one call is the caller's own object: scaling / adding to it in place must
+    not influence what a later identical call returns (a result cache that hands out its own entry
+    would). Pair form and list form."""
+    fn = getattr(spk, fname)
+    for form in ('pair', 'list'):
+        mkargs = (lambda: [mk(sc['trains'][0]), mk(sc['trains'][1])]) if form == 'pair' else (lambda: [mkl(sc)])
+        p1 = quiet(fn, *mkargs(), **kw)
+        ref = _arrs(p1)
+        quiet(p1.mul_scalar, 3.0)
+        p2 = quiet(fn, *mkargs(), **kw)
+        got = _arrs(p2)
+        if len(ref) != len(got) or any(a.shape != b.shape or not np.array_equal(a, b, equal_nan=True) for a, b in zip(ref, got)):
+            return '%s %s (%s form): a second identical call returns a different profile after the first result was scaled in place' % (prop, fname, form)
+        quiet(p2.add, p1)
+        p3 = quiet(fn, *mkargs(), **kw)
+        got = _arrs(p3)
+        if len(ref) != len(got) or any(a.shape != b.shape or not np.array_equal(a, b, equal_nan=True) for a, b in zip(ref, got)):
+            return '%s %s (%s form): a third identical call returns a different profile after an earlier result was added to in place' % (prop, fname, form)
+    return None
+
+
 def o_C01(sc):
     (s1, ts, te), (s2, _, _) = sc['trains'][:2]
     m = Fr(sc['kw'].get('mrts') or 0)
@@ -185,7 +218,7 @@ def o_C01(sc):
     d = quiet(spk.isi_distance, mk(sc['trains'][0]), mk(sc['trains'][1]), **kwargs_of(sc))
     if not feq(d, e):
         return 'C01 isi_distance %r, time average of the definition %s' % (d, float(e))
-    return None
+    return recall_check('C01', sc, 'isi_profile', **kwargs_of(sc))
 
 
 def is_f9(tr):
@@ -211,12 +244,17 @@ def o_C02(sc):
         em = spike_def_at(s1, s2, ts, te, m, ri, mid, +1)
         if not feq(quiet(p, float(mid)), em):
             return 'C02 at t=%s: impl %r expected %s' % (mid, quiet(p, float(mid)), float(em))
-    return None
+    return recall_check('C02', sc, 'spike_profile', **kwargs_of(sc, 'spike'))
 
 
 def o_C03(sc):
     (s1, ts, te), (s2, _, _) = sc['trains'][:2]
-    m = Fr(sc['kw'].get('mrts') or 0)
+    if sc['kw'].get('mrts') == 'auto':
+        # 'auto' stands for the pooled threshold of the two reconciled trains
+        from pyspike.isi_lengths import default_thresh
+        m = Fr(float(quiet(default_thresh, quiet(spk.spikes.reconcile_spike_trains, [mk(sc['trains'][0]), mk(sc['trains'][1])]))))
+    else:
+        m = Fr(sc['kw'].get('mrts') or 0)
     mt = Fr(sc['kw'].get('max_tau') or 0)
     p = quiet(spk.spike_sync_profile, mk(sc['trains'][0]), mk(sc['trains'][1]), **mt_of(sc), **kwargs_of(sc))
     C = coinc_matrix(s1, s2, ts, te, mt, m)
@@ -247,7 +285,7 @@ def o_C03(sc):
     kept = [float(a) for a, c in zip(s1, c1) if c]
     if list(f[0].spikes) != kept:
         return 'C03 per-spike indicator (filter) %s expected %s' % (list(f[0].spikes), kept)
-    return None
+    return recall_check('C03', sc, 'spike_sync_profile', **mt_of(sc), **kwargs_of(sc))
 
 
 def o_C04(sc):
@@ -330,7 +368,7 @@ def o_C04(sc):
                     tot = tot + quiet(spk.spike_directionality_values, [sel[k], sel[l]], **mt, **kwp)[0]
             if not aeq(V[k], tot / (n - 1)):
                 return 'C04 directionality values are not the average over the other N-1 trains'
-    return None
+    return recall_check('C04', sc, 'spike_train_order_profile', **mt, **kw)
 
 
 MEASURES = ['isi', 'spike', 'sync', 'order']
@@ -1089,12 +1127,20 @@ def integral_exact(kind, f, a, b):
     return tot
 
 
-def mk_func(kind, f):
+def mk_func(kind, f, ints=False):
+    """ints: value arrays are created with an integer dtype when all values are integers (a function
+    built from Python ints, or the PSTH) — adding a fractional function to it or scaling it must
+    still give the exact result"""
+    def A(v):
+        if ints and all(Fr(z).denominator == 1 for z in v):
+            return np.array([int(z) for z in v])
+        return np.array([float(z) for z in v])
+    X = lambda v: np.array([float(z) for z in v])
     if kind == 'pwc':
-        return PieceWiseConstFunc(np.array([float(v) for v in f[0]]), np.array([float(v) for v in f[1]]))
+        return PieceWiseConstFunc(X(f[0]), A(f[1]))
     if kind == 'pwl':
-        return PieceWiseLinFunc(np.array([float(v) for v in f[0]]), np.array([float(v) for v in f[1]]), np.array([float(v) for v in f[2]]))
-    return DiscreteFunc(np.array([float(v) for v in f[0]]), np.array([float(v) for v in f[1]]), np.array([float(v) for v in f[2]]))
+        return PieceWiseLinFunc(X(f[0]), A(f[1]), A(f[2]))
+    return DiscreteFunc(X(f[0]), A(f[1]), A(f[2]))
 
 
 def func_state(g):
@@ -1112,7 +1158,7 @@ def o_C09(sc):
     as an object changing that was not the receiver)."""
     kind = sc['kind']
     init = [tuple(_F(a) for a in f) for f in sc['funcs']]
-    objs = [mk_func(kind, f) for f in init]
+    objs = [mk_func(kind, f, ints=bool(sc.get('ints')) and k == 0) for k, f in enumerate(init)]
     combo = [{k: Fr(1)} for k in range(len(init))]
     ev = (lambda f, t, s: pwc_eval_exact(f[0], f[1], t, s)) if kind == 'pwc' else (lambda f, t, s: pwl_eval_exact(f[0], f[1], f[2], t, s))
 
@@ -1344,3 +1390,18 @@ def o_C11(sc):
 
 
 ORACLES.update({'C09': o_C09, 'C10': o_C10, 'C11': o_C11})
+
+
+def _wrap(f):
+    def g(sc):
+        global _CUR
+        _CUR = sc
+        try:
+            return f(sc)
+        finally:
+            _CUR = None
+    g.__name__ = f.__name__
+    return g
+
+
+ORACLES = {k_: _wrap(v_) for k_, v_ in ORACLES.items()}
